@@ -229,6 +229,13 @@ def run(out: Outcome) -> None:
         else:
             xs = gen.float_stress_stream(rng, L)
         check(out, p, xs, runners)
+    # the cancellation probes at EVERY scale in every run (not left to the draw): non-dyadic values at 1e8 / 1e-8 / 1e3 followed by exact zeros, and noise on a large level
+    for sc in (1e8, 1e-8, 1e3, 1.0):
+        for _ in range(3 if thorough else 2):
+            check(out, gen.rand_params(rng, "ADWIN"), gen.float_stress_stream(rng, rng.randint(40, 300), scale=sc), runners)
+    for level in (1e6, 1e8):
+        p = gen.rand_params(rng, "ADWIN")
+        check(out, p, [level + abs(rng.gauss(0, 1)) for _ in range(150)] + [level + 6 + abs(rng.gauss(0, 1)) for _ in range(80)], runners)
     # runs that continue after a detection with a large min_num_instances: right after a cut the window is shorter than min_num_instances,
     # so no check is due although the update counter is large
     for i in range(40 if thorough else 12):
